@@ -38,6 +38,8 @@ for prop, diff in items:
         print(f'SKIP  {prop} {os.path.relpath(diff, V)}: does not apply: {r.stderr.strip()[:200]}')
         bad += 1
         continue
+    ev = os.path.join(V, 'evidence', prop + '.json')
+    saved_ev = open(ev).read() if os.path.exists(ev) else None
     try:
         c = subprocess.run([os.path.join(V, 'check'), prop], capture_output=True, text=True, cwd=V)
         viol = [l for l in c.stdout.splitlines() if l.startswith('VIOLATION')]
@@ -54,6 +56,8 @@ for prop, diff in items:
             results.append({'id': mid, 'property': prop, 'title': meta.get('title', ''), 'verdict': 'caught' if ok else 'missed', 'by': by})
     finally:
         subprocess.run(['git', '-C', '/repo', 'checkout', '--', '.'], check=True)
+        if saved_ev is not None:
+            open(ev, 'w').write(saved_ev)      # the evidence file must describe the unchanged tree, not the mutated one
 if seeded and '--record' in sys.argv:
     path = os.path.join(V, 'seeded', 'RESULTS.json')
     prev = json.load(open(path)) if os.path.exists(path) else {}
